@@ -1,5 +1,5 @@
 #!/usr/bin/env python3
-"""matrix.py [--update-meta]: prints the table of DESIGN.md section 10 from seeded/*/meta.json and seeded/RESULTS.json
+"""matrix.py [--update-meta] [--write-design]: prints the table of DESIGN.md section 10 from seeded/*/meta.json and seeded/RESULTS.json
 (which check caught which seeded change). With --update-meta, copies the results of the latest tools/mutants.py run into
 each meta.json (detected_by, checks_run) first."""
 import json, os, sys, glob
@@ -21,7 +21,11 @@ for d in sorted(glob.glob(os.path.join(VERIF, "seeded", "*"))):
     kept += 1; own = m["breaks_property"]; det = m.get("detected_by", [])
     caught_own += own in det
     rows.append("| %s | %s | %s | %s |" % (name, own, ", ".join(det) or "**none**", m.get("needs_to_manifest", "").replace("|", "/").replace("\n", " ")))
-print("| change | breaks | caught by (exit 1) | what it needs to manifest |")
-print("|--------|--------|--------------------|---------------------------|")
-print("\n".join(rows))
+table = "| change | breaks | caught by (exit 1) | what it needs to manifest |\n|--------|--------|--------------------|---------------------------|\n" + "\n".join(rows) + "\n"
+if "--write-design" in sys.argv:      # replace the table of DESIGN.md section 10 in place
+    dp = os.path.join(VERIF, "DESIGN.md"); lines = open(dp).read().split("\n")
+    a = next(i for i, l in enumerate(lines) if l.startswith("| change | breaks |")); b = a
+    while b < len(lines) and lines[b].startswith("|"): b += 1
+    open(dp, "w").write("\n".join(lines[:a] + table.rstrip("\n").split("\n") + lines[b:]))
+else: print(table, end="")
 print("\nkept %d, caught by the check of their own property %d; benign %d, all nine checks quiet on %d; rejected %d" % (kept, caught_own, benign, benign_quiet, rejected), file=sys.stderr)
